@@ -409,4 +409,34 @@ def allPlaces (jd : JobDef) : List ((Nat × Nat) × Place) :=
 def placesDistinguishable (jd : JobDef) : Bool :=
   (allPlaces jd).all (fun x => (allPlaces jd).all (fun y => x.1 == y.1 || placesApart x.2 y.2))
 
+/-- the view the reader gets of a trace activity (what the writer puts into the document) -/
+def ctxOfAct (P : Problem) (routeStart : Int) (a : Act) : Ctx :=
+  { routeStart := routeStart, loc := a.loc, time := (startOf a, endOf a), kind := a.kind,
+    jobId := if isCustomerKind a.kind then a.job else a.kind, tag := tagOf P a }
+
+def nodupB [BEq α] : List α → Bool
+  | [] => true
+  | a :: as => !as.contains a && nodupB as
+
+/-- conditions on the solver's output: every job activity sits at one of its places inside a window,
+    no (job, task) is served twice, a vehicle-bound activity is resolved to its own job, the
+    departure time is what the departure activity says -/
+def traceOk (P : Problem) (tours : List Tour) : Bool :=
+  let all := tours.flatMap (·.acts)
+  nodupB ((all.filter (fun a => isCustomerKind a.kind)).map (fun a => (a.job, a.task))) &&
+  nodupB ((all.filter (fun a => isBoundKind a.kind)).map (·.job)) &&
+  tours.all (fun t =>
+    match t.acts with
+    | [] => false
+    | st :: rest =>
+      let rs := fmt st.dep
+      st.kind == "departure" && fmt st.arr ≤ fmt st.dep &&
+      rest.all (fun a =>
+        (a.kind == "arrival") ||
+        (isCustomerKind a.kind && selfMatches P rs a && (match P.find a.job with | some jd => !jd.bound | none => false)) ||
+        (isBoundKind a.kind && selfMatches P rs a &&
+          (match matchBound (ctxOfAct P rs a) (boundGroup P t.vehicle a.kind t.shift P.jobs.length 1) with
+           | some (jd, _) => jd.id == a.job
+           | none => false))))
+
 end C11.Init
